@@ -74,7 +74,7 @@ func c02Rules(c *core.Ctx, r *core.Reporter) {
 				regPos = cl.Pos()
 				for _, e := range cl.Elts {
 					if fo, ok := core.ObjOf(p.TypesInfo, e).(*types.Func); ok {
-						have[fo.Name()]++
+						have[core.N(fo)]++
 					}
 				}
 			}
@@ -268,7 +268,7 @@ func c02Overlap(c *core.Ctx, r *core.Reporter) {
 					continue
 				}
 				fa, ok := su.X.(*ssa.FieldAddr)
-				if ok && core.FieldOf(fa) != nil && core.FieldOf(fa).Name() == "fragmentNames" {
+				if ok && core.FieldOf(fa) != nil && core.N(core.FieldOf(fa)) == "fragmentNames" {
 					return fa.X
 				}
 			}
